@@ -40,12 +40,11 @@ def checkBond (g : Graph) (sid : Nat) (b : Bond) : Option WalkError :=
     | some s, some t =>
       if countTo s.bonds b.tid > 1 then some (.duplicateBond sid b.tid)
       else
-        match t.bonds.find? (fun o => o.tid == sid) with
-        | none => some (.halfBond sid b.tid)
-        | some back =>
-          if countTo t.bonds sid > 1 then some (.duplicateBond sid b.tid)
-          else if b.kind ≠ back.kind.reverse then some (.incompatibleBond b.tid sid)
-          else none
+        -- the counterparts on the other atom: none, exactly one, or several
+        match t.bonds.filter (fun o => o.tid == sid) with
+        | [] => some (.halfBond sid b.tid)
+        | [back] => if b.kind ≠ back.kind.reverse then some (.incompatibleBond b.tid sid) else none
+        | _ => some (.duplicateBond sid b.tid)
     | _, _ => some (.unknownTarget sid b.tid)
 
 def checkBonds (g : Graph) (sid : Nat) : List Bond → Option WalkError
